@@ -390,6 +390,24 @@ func registerIntrinsics(e *Engine) {
 		x.stubRet[name] = res
 		return nil
 	})
+	// vStubReturnN(funcName, n, results...): the n-th call (from 0) of funcName answers with the canned results
+	reg("vStubReturnN", func(x *Exec, a []Value) Value {
+		name := cstr(x, a[0])
+		n := cint(x, a[1])
+		var res []Value
+		for _, r := range sliceElems(a[2]) {
+			res = append(res, r)
+		}
+		if x.stubSeq == nil {
+			x.stubSeq = map[string]map[int][]Value{}
+			x.stubCalls = map[string]int{}
+		}
+		if x.stubSeq[name] == nil {
+			x.stubSeq[name] = map[int][]Value{}
+		}
+		x.stubSeq[name][n] = res
+		return nil
+	})
 	reg("vDocument", func(x *Exec, a []Value) Value { return x.makeDocument(a[0]) })
 	reg("vCallLog", func(x *Exec, a []Value) Value { return mkStrSlice(x.calllog) })
 	// vMarshalled(i): the value handed to the i-th json.MarshalIndent call of this path (the JSON text itself is not modelled)
